@@ -110,6 +110,11 @@ func judgeOracles(o fsOpts, hist *h.History, m []h.ModelStep, res *result) {
 		if has(o.oracles, "C10") && (st.Res == "stuck" || st.LateWedge) {
 			st.OracleMsgs = append(st.OracleMsgs, fmt.Sprintf("C10\x00%s never returned or left the drive locked for every later call", st.Call.Method))
 		}
+		if has(o.oracles, "C14") && i < len(m) {
+			if msg := judgeC14(st, m[i]); msg != "" {
+				st.OracleMsgs = append(st.OracleMsgs, "C14\x00"+msg)
+			}
+		}
 		if has(o.oracles, "C02") && i < len(m) {
 			if msg := judgeC02(st, m[i]); msg != "" {
 				st.OracleMsgs = append(st.OracleMsgs, "C02\x00"+msg)
@@ -231,8 +236,14 @@ func readAt(path string, off, n int64) ([]byte, error) {
 func judgeC02(st h.Step, m h.ModelStep) string {
 	if m.RefRes != "-" && m.RefRes != "" {
 		got := st.Res
-		if got != m.RefRes {
-			return fmt.Sprintf("%s returned %s, the reference filesystem returns %s", st.Call.Method, got, m.RefRes)
+		want := strings.SplitN(m.RefRes, "\t", 2)[0]
+		switch st.Call.Method {
+		case "hread", "hreadat", "hseek", "hwriteat", "htruncate", "hstat", "hname":
+			// byte-level handle calls are C14's business
+		default:
+			if got != want {
+				return fmt.Sprintf("%s returned %s, the reference filesystem returns %s", st.Call.Method, got, want)
+			}
 		}
 	}
 	if st.TreeE != "" {
@@ -778,4 +789,48 @@ func oracleC16(hs *hookState, i int, dir string, s *h.Session, st *h.Step) []str
 		msgs = append(msgs, oracleC01(i, dir, s, st)...)
 	}
 	return msgs
+}
+
+// ---------------------------------------------------------------------------------------
+// C14: bytes, counts, offsets and end-of-file signalling of every handle call equal those of
+// the byte-array reference (`Spec/ByteFile.lean`, run by the driver on the same calls); after
+// close the content read back and the size equal the reference's (tree comparison).
+func judgeC14(st h.Step, m h.ModelStep) string {
+	switch st.Call.Method {
+	case "hread", "hreadat", "hseek", "hwrite", "hwritestr", "hwriteat", "htruncate":
+	default:
+		if st.Tree != nil && m.Tree != nil && (st.Call.Method == "hclose" || st.Call.Method == "hsync") {
+			for i := range st.Tree {
+				if i >= len(m.Tree) || st.Tree[i] != m.Tree[i] {
+					return "after " + st.Call.Method + " the files differ from the reference: " + firstTreeDiff(st.Tree, m.Tree)
+				}
+			}
+		}
+		return ""
+	}
+	if m.RefRes == "" || m.RefRes == "-" || m.RefRes == "badhandle" {
+		return ""
+	}
+	impl := ""
+	for _, l := range st.Obs {
+		if strings.HasPrefix(l, "res\t") {
+			impl = strings.TrimPrefix(l, "res\t")
+			break
+		}
+	}
+	norm := func(s string) []string { return strings.Fields(strings.ReplaceAll(s, "\t", " ")) }
+	a, b := norm(impl), norm(m.RefRes)
+	if st.Call.Method == "hread" || st.Call.Method == "hreadat" {
+		if len(a) > 3 {
+			// end-of-file signalling: required when nothing was returned for a non-empty request
+			if a[1] == "0" && a[3] == "0" && len(st.Call.Args) > 1 && st.Call.Args[1] != "0" && len(b) > 1 && b[0] == "ok" {
+				return fmt.Sprintf("%s returned no bytes and no end-of-file", st.Call.Method)
+			}
+			a = a[:3]
+		}
+	}
+	if strings.Join(a, " ") != strings.Join(b, " ") {
+		return fmt.Sprintf("%s returned [%s], the byte-array reference [%s]", st.Call.Method, strings.Join(a, " "), strings.Join(b, " "))
+	}
+	return ""
 }
